@@ -114,7 +114,12 @@ func (fc *FnCtx) evalSpec(env *Env, e *Expr) Val {
 		i := fc.evalSpec(env, e.Args[1])
 		if b.K == VSlice {
 			et := elemTypeOfSlice(b.Typ)
-			return Val{K: VInt, T: fc.memSel(env.heap, b.Arr, mkAdd(b.Off, i.T)), Typ: et}
+			hp := env.heap
+			if e.Args[0].Kind == "old" {
+				// old(s)[k]: the sequence s held at entry (header AND words), indexed by the current k
+				hp = env.oldHeap
+			}
+			return Val{K: VInt, T: fc.memSel(hp, b.Arr, mkAdd(b.Off, i.T)), Typ: et}
 		}
 		panic(unsupported("spec index on non-slice: " + e.String()))
 	case "slice":
@@ -386,7 +391,11 @@ func (fc *FnCtx) specCall(env *Env, e *Expr) Val {
 			// V(s, lo, hi): value of s[lo:hi]
 			s := fc.specSliceArg(env, e.Args[0])
 			lo, hi := arg(1).T, arg(2).T
-			return mathInt(mkV(mkSelect(fc.heapIn(env.heap, "Mem", SMem), s.Arr), mkAdd(s.Off, lo), mkAdd(s.Off, hi)))
+			hp := env.heap
+			if e.Args[0].Kind == "old" {
+				hp = env.oldHeap // V(old(s), lo, hi): words as they were at entry
+			}
+			return mathInt(mkV(mkSelect(fc.heapIn(hp, "Mem", SMem), s.Arr), mkAdd(s.Off, lo), mkAdd(s.Off, hi)))
 		}
 	case "P":
 		return mathInt(mkP(arg(0).T))
@@ -616,7 +625,11 @@ func (fc *FnCtx) applyHint(s *State, env *Env, h *Hint, where string) {
 		if guard != nil {
 			g = mkImp(guard, g)
 		}
-		fc.oblige(s, fmt.Sprintf("%s.assert[%s]@%s", fc.key, h.Label, strings.ReplaceAll(where, " ", "")), "assert", h.Props, h.Text, g, where)
+		nm := fmt.Sprintf("%s.assert[%s]@%s", fc.key, h.Label, strings.ReplaceAll(where, " ", ""))
+		if ord := fc.assertOrdinal(h); ord > 1 {
+			nm = fmt.Sprintf("%s#%d", nm, ord)
+		}
+		fc.oblige(s, nm, "assert", h.Props, h.Text, g, where)
 		s.assume(g)
 		return
 	}
@@ -771,4 +784,35 @@ func (fc *FnCtx) evalLemma(env *Env, e *Expr) Val {
 		return r
 	}
 	return fc.evalSpec(env, e)
+}
+
+// assertOrdinal numbers the assert(...) hints that share a label, in contract order
+// (obligation names must not depend on line numbers).
+func (fc *FnCtx) assertOrdinal(h *Hint) int {
+	n := 0
+	count := func(hs []*Hint) bool {
+		for _, x := range hs {
+			if x.E != nil && x.E.Kind == "call" && x.E.Name == "assert" || (x.E != nil && x.E.Kind == "binary" && strings.Contains(x.Text, "assert(")) {
+				if x.Label == h.Label && x.Where == h.Where {
+					n++
+				}
+			}
+			if x == h {
+				return true
+			}
+		}
+		return false
+	}
+	if fc.ct != nil {
+		if count(fc.ct.Hints) {
+			return n
+		}
+		for _, l := range fc.ct.Loops {
+			n = 0
+			if count(l.Hints) {
+				return n
+			}
+		}
+	}
+	return 0
 }
